@@ -9,7 +9,7 @@ use arrow::array::{Array, ArrayRef, UInt32Array};
 use arrow::datatypes::{DataType, Field, FieldRef};
 use datafusion::common::ScalarValue;
 use datafusion::common::config::ConfigOptions;
-use datafusion::logical_expr::type_coercion::functions::fields_with_udf;
+use datafusion::logical_expr::type_coercion::functions::{UDFCoercionExt, fields_with_udf};
 use datafusion::logical_expr::{ColumnarValue, ReturnFieldArgs, ScalarFunctionArgs, ScalarUDF, Volatility};
 
 use super::menu;
@@ -148,6 +148,15 @@ pub struct SigStats {
 /// passed through the function's own coercion; de-duplicated up to string
 /// flavour; chosen greedily for diversity of (position, type).
 pub fn type_lists(udf: &ScalarUDF, cap: usize) -> (Vec<Vec<DataType>>, SigStats) {
+    type_lists_with(udf, cap, 3, &|coerced: &[FieldRef]| {
+        let none: Vec<Option<&ScalarValue>> = vec![None; coerced.len()];
+        matches!(mc_core::catch(|| udf.return_field_from_args(ReturnFieldArgs { arg_fields: coerced, scalar_arguments: &none })), Ok(Ok(_)))
+    })
+}
+
+/// Generic over scalar / aggregate / window functions; `rf_ok` says whether the return field is
+/// known for the coerced argument fields; `max_arity` bounds the probe lists.
+pub fn type_lists_with<F: UDFCoercionExt>(udf: &F, cap: usize, max_arity: usize, rf_ok: &dyn Fn(&[FieldRef]) -> bool) -> (Vec<Vec<DataType>>, SigStats) {
     let mut st = SigStats::default();
     let mut cands: Vec<Vec<DataType>> = vec![];
     let ex = mc_core::catch(|| udf.signature().type_signature.get_example_types()).unwrap_or_default();
@@ -161,24 +170,28 @@ pub fn type_lists(udf: &ScalarUDF, cap: usize) -> (Vec<Vec<DataType>>, SigStats)
     for a in &alpha {
         cands.push(vec![a.clone()]);
     }
-    for a in &alpha {
-        for b in &alpha {
-            cands.push(vec![a.clone(), b.clone()]);
-        }
-    }
-    let small = &alpha[..8];
-    for a in small {
-        for b in small {
-            for c in small {
-                cands.push(vec![a.clone(), b.clone(), c.clone()]);
+    if max_arity >= 2 {
+        for a in &alpha {
+            for b in &alpha {
+                cands.push(vec![a.clone(), b.clone()]);
             }
         }
     }
-    // four arguments: a few shapes only
-    for a in &alpha[..3] {
-        for b in &alpha[..3] {
-            cands.push(vec![a.clone(), b.clone(), b.clone(), alpha[0].clone()]);
-            cands.push(vec![a.clone(), a.clone(), b.clone(), alpha[1].clone()]);
+    if max_arity >= 3 {
+        let small = &alpha[..8];
+        for a in small {
+            for b in small {
+                for c in small {
+                    cands.push(vec![a.clone(), b.clone(), c.clone()]);
+                }
+            }
+        }
+        // four arguments: a few shapes only
+        for a in &alpha[..3] {
+            for b in &alpha[..3] {
+                cands.push(vec![a.clone(), b.clone(), b.clone(), alpha[0].clone()]);
+                cands.push(vec![a.clone(), a.clone(), b.clone(), alpha[1].clone()]);
+            }
         }
     }
     let mut seen: HashSet<Vec<String>> = HashSet::new();
@@ -203,9 +216,8 @@ pub fn type_lists(udf: &ScalarUDF, cap: usize) -> (Vec<Vec<DataType>>, SigStats)
             st.no_menu += 1;
             continue;
         }
-        let none: Vec<Option<&ScalarValue>> = vec![None; types.len()];
-        let rf_ok = matches!(mc_core::catch(|| udf.return_field_from_args(ReturnFieldArgs { arg_fields: &coerced, scalar_arguments: &none })), Ok(Ok(_)));
-        good.push((types, rf_ok));
+        let ok = rf_ok(&coerced);
+        good.push((types, ok));
     }
     st.distinct_lists = good.len();
     // greedy diversity: prefer lists whose return type is known, then those adding most unseen (position, type) pairs
